@@ -800,6 +800,8 @@ package larking
 //@      && (c == 5 ==> n == "not_found") && (c == 6 ==> n == "already_exists") && (c == 7 ==> n == "permission_denied") && (c == 8 ==> n == "resource_exhausted")
 //@      && (c == 9 ==> n == "failed_precondition") && (c == 10 ==> n == "aborted") && (c == 11 ==> n == "out_of_range") && (c == 12 ==> n == "unimplemented")
 //@      && (c == 13 ==> n == "internal") && (c == 14 ==> n == "unavailable") && (c == 15 ==> n == "dataloss") && (c == 16 ==> n == "unauthenticated") && len(n) > 0
+//@ func twirpCodeName serves C05 C09 pure
+//@   ensures [twirp-table C05] TwirpNameOK(c, result)
 //@ det StatusCodeOf "(*status.Status).Code" int
 // (the HTTP status written for an error is the mapped status of its code, on both
 // the Twirp and the negotiated path)
